@@ -73,6 +73,13 @@ def core(ctx):
     for n in (40, 1500):
         yield {"spec": _delay_line(n), "superc": False}
         yield {"spec": _delay_line(n), "superc": True}
+        # the chain's source does not reconverge: the whole run sits inside one supergate
+        dl = _delay_line(n)
+        dl["nodes"][-1] = ["p", "xor", ["o", "q"], True]
+        dl["nodes"].insert(-1, ["e", "input", [], False])
+        dl["nodes"].insert(-1, ["q", "or", ["b", "e"], False])
+        yield {"spec": dl, "superc": False}
+        yield {"spec": dl, "superc": True}
     yield {"spec": _example(), "superc": True}
     yield {"spec": _example(), "superc": False}
     for d in (1, 2, 3):
